@@ -177,6 +177,50 @@ def oracle(ctx, case, obs):
     return v["ok"]
 
 
+def dom_stream(ctx, case, x, obs):
+    """DOM level of every <value> (phase 8): the model's `ItextOut.outDoms` (C06's mixed channel under the tag `value`
+    with the reference table of the survey, `form` attribute added) against the children and attributes of the
+    implementation's <value> elements — text chunks verbatim interleaved with one <output value=…/> per ${reference}."""
+    md = ctx.driver.call("itext.doms", survey=x)
+    if md["outcome"] != "ok":
+        ctx.mismatch("itext.doms outcome differs from itext.model", case, "ok", md["outcome"])
+        return
+    if [t["lang"] for t in md["translations"]] != [t["lang"] for t in obs["translations"]]:
+        ctx.mismatch("DOM stream: languages", case, [t["lang"] for t in obs["translations"]], [t["lang"] for t in md["translations"]])
+        return
+    for tm, ti in zip(md["translations"], obs["translations"]):
+        if [t["id"] for t in tm["texts"]] != ti["ids"]:
+            ctx.mismatch("DOM stream: text ids", case, ti["ids"], [t["id"] for t in tm["texts"]])
+            return
+        if ti.get("valueXml") is None:
+            ctx.mismatch("DOM stream: serialised <value> elements of the itext block could not be dealt out", case, None, None)
+            return
+        for txm, forms_i, doms_i in zip(tm["texts"], ti["forms"], ti["valueXml"]):
+            if [v["form"] for v in txm["values"]] != forms_i:
+                ctx.mismatch("DOM stream: <value form> list", case, forms_i, [v["form"] for v in txm["values"]])
+                continue
+            for vm, di in zip(txm["values"], doms_i):
+                d = vm["dom"]
+                if d is None:
+                    ctx.count("dom:not-stated" + ("" if txm["stated"] else ":repeat-context"))
+                    continue
+                if "unsupported" in d:
+                    ctx.count("dom:unsupported:" + d["unsupported"])
+                    continue
+                if "err" in d:
+                    ctx.mismatch("DOM stream: model rejects a <value> text, implementation accepts", case,
+                                 {"lang": ti["lang"], "id": txm["id"], "impl": di}, d)
+                    continue
+                if d["tag"] != "value" or d["xml"] != di:
+                    ctx.mismatch("DOM of <value> (attributes, text chunks, <output> elements in order), as serialised", case,
+                                 {"lang": ti["lang"], "id": txm["id"], "impl": di}, d["xml"])
+                n_out = sum(1 for k in d["kids"] if k[0] == "e")
+                ctx.count("dom:compared")
+                if n_out:
+                    ctx.count("dom:compared-with-output")
+                    ctx.count("dom:outputs:" + ("1" if n_out == 1 else "2" if n_out == 2 else ">2"))
+
+
 def one_case(ctx, case, tag="gen"):
     form, kw = case["form"], case.get("kw", {})
     r = impl.run(form, **kw)
@@ -221,6 +265,8 @@ def one_case(ctx, case, tag="gen"):
                             ctx.mismatch("<value> text", case, {"lang": ti["lang"], "id": pid, "impl": vi}, vm)
                         ctx.count("values-compared", sum(1 for a in vm if a is not None))
                         ctx.count("values-not-stated", sum(1 for a in vm if a is None))
+            if mt == it:
+                dom_stream(ctx, case, x, obs)
             for k in ("bodyRefs", "bindRefs", "itemIds"):
                 if obs[k] != model[k]:
                     ctx.mismatch(k, case, obs[k], model[k])
